@@ -26,7 +26,7 @@ def _fast_unescape(s, _slow=tlc._unescape):
 
 
 tlc._unescape = _fast_unescape
-INV = "INVARIANTS TypeOK ValidNow Short Advertised NextServedNext LearnedKeepsVerifying Deterministic"
+INV = "INVARIANTS TypeOK ValidNow Short Advertised NextServedNext LearnedKeepsVerifying LearnedSurvivesRestart Deterministic"
 
 
 def small_instances(ctx):
@@ -60,6 +60,16 @@ def _reach(args):
     if r.ok or r.violated != probe:
         raise MachineryError("vacuity guard: %s is not reachable in the bounded model" % probe)
     return probe
+
+
+def _selftest_variant(ctx):
+    """Design variant RestartForgetsLast (the defect repaired by /repo aa4b128) MUST violate LearnedSurvivesRestart."""
+    cfg = tlc.subst_cfg("C18_MC.cfg", dict(_small_consts(2, 4), RestartForgetsLast="TRUE"),
+                        replace=[(INV, "INVARIANTS LearnedSurvivesRestart")])
+    r = tlc.run(ctx, "C18_MC", "gen_variant_forgets.cfg", cfg_text=cfg, workers=1, timeout=600, name="variantforgets")
+    if r.ok or r.violated != "LearnedSurvivesRestart":
+        raise MachineryError("self-test: the design variant RestartForgetsLast does not violate LearnedSurvivesRestart")
+    return "RestartForgetsLast violates LearnedSurvivesRestart"
 
 
 def replay_consts(ctx):
@@ -109,8 +119,8 @@ def _edge_stats(edges):
                 st["one_tick_before_roll"] += 1
         if n == "restart":
             st["restart_later_bucket" if t["cur"] != s["cur"] else "restart_same_bucket"] += 1
-            if s["last"] != -1:
-                st["restart_after_roll"] += 1
+            if op.get("fires"):
+                st["restart_after_roll"] += 1     # the continuously running manager rolled during the down-time
         if n == "start" and t["now"] == t["cur"] + 3:
             st["start_at_switch_instant"] += 1
     return st
@@ -183,6 +193,7 @@ def run(ctx):
         fver = px.submit(_verifier_graph, (ctx, beh_ver))
         fex = [px.submit(_exhaustive, (ctx, i)) for i in smalls]
         fre = [px.submit(_reach, (ctx, p)) for p in ("ReachRolled", "ReachRestartAfterRoll", "ReachMultiFire", "ReachLearnedExpired")]
+        fvar = px.submit(_selftest_variant, ctx)
         ver = fver.result()
         fvgo = pg.submit(_go, (ctx, "^TestVerifC18Verifier$", beh_ver))
         fdgo = pg.submit(_go, (ctx, "^TestVerifC18Dial$", beh_ver))
@@ -190,7 +201,7 @@ def run(ctx):
         log("C18: replay graph done at %.1fs: %d states, %d edges, %d walks" % (ctx.wall(), rep[0], rep[2], rep[3]))
         frgo = pg.submit(_go, (ctx, "^TestVerifC18Replay$", beh_mgr))
         eres = [f.result() for f in fex]
-        guards = [f.result() for f in fre]
+        guards = [f.result() for f in fre] + [fvar.result()]
         log("C18: exhaustive done at %.1fs" % ctx.wall())
         sweep, vres, dres, rres = fsweep.result(), fvgo.result(), fdgo.result(), frgo.result()
 
